@@ -3,7 +3,9 @@
 The same history (edits of sources and tracked variables, each followed by a build) is run
 through the real serve() (E3, restart flavour) and through Engine.v inside Coq; compared per
 build: which steps executed their command, which were hash-checked and skipped, the final state
-(SUCCEEDED or not) of every step, and which output files changed content."""
+(SUCCEEDED or not) of every step, which output files changed content, and the value recorded in
+table env_var for every (step, tracked variable) row (read from the real database after the
+build) with the model's [rrec]."""
 from __future__ import annotations
 
 import random
@@ -15,40 +17,57 @@ HEADER = ("From Coq Require Import List NArith Bool.\nImport ListNotations.\n"
           "From SV Require Import model.Engine.\nOpen Scope N_scope.\n")
 
 
+ENVS = ["VA", "VB", "VC"]
+
+
+def env_rows_probe(handler, db):
+    """The rows (step label, variable, recorded value) of table env_var of the attached steps."""
+    sql = ("SELECT label, name, value FROM env_var JOIN node ON env_var.node = node.i "
+           "WHERE NOT node.detached ORDER BY label, name")
+    return [list(r) for r in db.execute(sql).fetchall()]
+
+
 def gen_static_case(rng: random.Random):
     """A static-DAG project, its model description, a history of source / env edits and the
-    absolute world (sources, environment) of every build."""
+    absolute world (sources, environment) of every build.
+
+    Steps track 0-3 variables and read 1-3 files.  Besides single edits a phase may change ALL
+    the variables (or all the source inputs) of one step at once, and a later phase may put a
+    SUBSET of them back to the values they had before (same-size contents for files)."""
     nsrc = rng.randint(2, 4)
     sources = [f"s{i}.txt" for i in range(nsrc)]
-    envs = ["VA", "VB"]
+    envs = list(ENVS)
     pid = {p: i + 1 for i, p in enumerate(sources)}
-    eid = {"VA": 1, "VB": 2}
+    eid = {n: i + 1 for i, n in enumerate(envs)}
     steps, avail = [], list(sources)
     for i in range(rng.randint(2, 7)):
         inp = sorted(rng.sample(avail, rng.randint(1, min(3, len(avail)))))
-        env = sorted(rng.sample(envs, rng.choice([0, 0, 0, 1, 2])))
+        env = sorted(rng.sample(envs, rng.choice([0, 0, 0, 1, 2, 2, 3])))
         outs = [f"o{i}.txt"] + ([f"o{i}b.txt"] if rng.random() < 0.2 else [])
         for o in outs:
             pid[o] = 100 + len(pid)
         steps.append({"label": f"t{i}", "id": 1000 + i, "inp": inp, "env": env, "out": outs})
         avail += outs
+    if not any(len(s["env"]) >= 2 for s in steps):
+        rng.choice(steps)["env"] = sorted(rng.sample(envs, rng.randint(2, 3)))
     plan = [{"op": "static", "paths": sources}]
     commands = {}
     for s in steps:
         plan.append({"op": "step", "label": s["label"], "inp": s["inp"], "env": s["env"], "out": s["out"]})
         commands[s["label"]] = [{"op": "getenv", "name": n} for n in s["env"]] + [{"op": "auto"}]
     version = {p: 0 for p in sources}
-    nextval = {"VA": 0, "VB": 0}
+    nextval = {n: 0 for n in envs}
     content_id = {}
 
     def cid(text):
         return content_id.setdefault(text, len(content_id) + 1)
 
     def text(p):
-        return f"{p} version {version[p]}\n"
-    env0 = {"VA": "va0", "VB": None}
+        return f"{p} version {version[p]}\n"      # same size for versions 0-9
+    env0 = {"VA": "va0", "VB": None, "VC": "vc0"}
     project = e3.Project(sources={p: text(p) for p in sources},
                          program={"scripts": {"plan.py": plan}, "commands": commands}, env=dict(env0))
+
     def world():
         src = [(pid[p], cid(text(p))) for p in sources if p in present]
         env = [(eid[n], cid("env:" + v)) for n, v in cur_env.items() if v is not None]
@@ -57,10 +76,19 @@ def gen_static_case(rng: random.Random):
     present = set(sources)
     cur_env = dict(env0)
     worlds.append(world())
-    for _ in range(rng.randint(1, 5)):
+    last_multi = None          # ("env", {name: previous value}) or ("src", {path: previous version})
+
+    def fresh(n):
+        nextval[n] += 1
+        return f"{n.lower()}{nextval[n]}"
+    for _ in range(rng.randint(1, 6)):
         edits = []
         for _ in range(rng.randint(1, 2)):
-            kind = rng.choice(["change", "change", "delete", "restore", "env", "noop"])
+            kind = rng.choice(["change", "change", "delete", "restore", "env", "noop",
+                               "env_multi", "env_multi", "src_multi", "revert_subset", "revert_subset",
+                               "revert_subset"])
+            if kind == "revert_subset" and last_multi is None:
+                kind = rng.choice(["env_multi", "src_multi"])
             if kind == "change":
                 p = rng.choice(sources)
                 version[p] += 1
@@ -81,13 +109,46 @@ def gen_static_case(rng: random.Random):
                 if rng.random() < 0.35:  # back to an earlier value (A -> B -> A, D30)
                     v = rng.choice([None, f"{n.lower()}0", f"{n.lower()}1"])
                 else:
-                    nextval[n] += 1
-                    v = f"{n.lower()}{nextval[n]}"
+                    v = fresh(n)
                 cur_env[n] = v
                 edits.append({"op": "setenv", "name": n, "value": v})
+            elif kind == "env_multi":
+                # every variable of one step (or every variable) gets a new value in one phase
+                cands = [s["env"] for s in steps if len(s["env"]) >= 2]
+                names = rng.choice(cands) if cands and rng.random() < 0.8 else list(envs)
+                last_multi = ("env", {n: cur_env[n] for n in names})
+                for n in names:
+                    cur_env[n] = fresh(n)
+                    edits.append({"op": "setenv", "name": n, "value": cur_env[n]})
+            elif kind == "src_multi":
+                cands = [[p for p in s["inp"] if p in version] for s in steps]
+                cands = [c for c in cands if len(c) >= 2]
+                paths = rng.choice(cands) if cands and rng.random() < 0.8 else list(sources)
+                paths = [p for p in paths if p in present]
+                if paths:
+                    last_multi = ("src", {p: version[p] for p in paths})
+                    top = max(version.values()) + 1
+                    for p in paths:
+                        version[p] = top
+                        edits.append({"op": "write", "path": p, "content": text(p)})
+            elif kind == "revert_subset":
+                what, old = last_multi
+                names = sorted(old)
+                k = rng.randint(1, len(names) - 1) if len(names) > 1 and rng.random() < 0.85 else len(names)
+                sub = sorted(rng.sample(names, k))
+                if what == "env":
+                    for n in sub:
+                        cur_env[n] = old[n]
+                        edits.append({"op": "setenv", "name": n, "value": old[n]})
+                else:
+                    for p in sub:
+                        if p in present:
+                            version[p] = old[p]
+                            edits.append({"op": "write", "path": p, "content": text(p)})
+                last_multi = None
         history.append({"edits": edits})
         worlds.append(world())
-    return project, history, steps, pid, eid, worlds
+    return project, history, steps, pid, eid, worlds, content_id
 
 
 def correspondence(ctx):
@@ -95,8 +156,8 @@ def correspondence(ctx):
     checks, meta = [], []
     for i in range(n):
         rng = random.Random(f"c01-engine-{ctx.seed}-{ctx.tier}-{i}")
-        project, history, steps, pid, eid, worlds = gen_static_case(rng)
-        results = e3.run_history(project, history, timeout=40)
+        project, history, steps, pid, eid, worlds, content_id = gen_static_case(rng)
+        results = e3.run_history(project, history, timeout=40, probe=env_rows_probe)
         labels = {s["label"]: s["id"] for s in steps}
         phases = []
         ran_any = skipped_any = False
@@ -104,7 +165,8 @@ def correspondence(ctx):
             ran = {c["label"] for c in res.commands if c["label"] in labels}
             skipped = {e[1] for e in res.events if e[0] == "SKIP" and e[1] in labels}
             ran_any |= bool(ran) and k > 0
-            skipped_any |= bool(skipped)
+            # some step was hash-checked and skipped, or kept SUCCEEDED without any check
+            skipped_any |= bool(skipped) or (k > 0 and bool(ran) and len(ran) < len(labels))
             nodes = res.nodes()
             states = {l: (nodes.get("step:" + l, {"props": {}})["props"].get("state") or ["?"])[0] for l in labels}
             log = [f"({labels[l]}, true)" for l in sorted(ran)] + [f"({labels[l]}, false)" for l in sorted(skipped - ran)]
@@ -113,15 +175,23 @@ def correspondence(ctx):
             prev = results[k - 1].files if k > 0 else {}
             outs = sorted(p for s in steps for p in s["out"])
             chg = [f"({pid[p]}, {common.coq_bool(res.files.get(p) != prev.get(p))})" for p in outs]
-            phases.append(f"({common.coq_list([f'({a}, {b})' for a, b in src])}, "
+            rows = []
+            for label, name, value in (res.probe or []):
+                if label in labels:
+                    # same value text = same content id in every world (0: a text no world had)
+                    v = "None" if value is None else f"(Some {content_id.get('env:' + value, 0)})"
+                    rows.append(f"({labels[label]}, {eid[name]}, {v})")
+            ctx.count("engine_env_rows", len(rows))
+            phases.append(f"(({common.coq_list([f'({a}, {b})' for a, b in src])}, "
                           f"{common.coq_list([f'({a}, {b})' for a, b in env])}, "
-                          f"{common.coq_list(log)}, {common.coq_list(est)}, {common.coq_list(chg)})")
+                          f"{common.coq_list(log)}, {common.coq_list(est)}, {common.coq_list(chg)}), "
+                          f"{common.coq_list(rows)})")
             ctx.count("engine_builds")
         proj = common.coq_list([
             f"mkStep {s['id']} {common.coq_list([str(pid[p]) for p in s['inp']])} "
             f"{common.coq_list([str(eid[e]) for e in s['env']])} {common.coq_list([str(pid[p]) for p in s['out']])}"
             for s in steps])
-        term = f"let proj := {proj} in wf proj && check_hist proj empty_sys {common.coq_list(phases)}"
+        term = f"let proj := {proj} in wf proj && check_hist_r proj empty_rsys {common.coq_list(phases)}"
         checks.append(term)
         meta.append((project, history, term))
         ctx.case(("engine", i, term), nontrivial=ran_any and skipped_any)
@@ -129,9 +199,10 @@ def correspondence(ctx):
     ctx.traces_validated += len(checks) - len(bad)
     for b in bad[:3]:
         project, history, term = meta[b]
-        t2 = term.replace("wf proj && check_hist", "trace_hist")
+        t2 = term.replace("wf proj && check_hist_r", "trace_hist_r")
         got = common.eval_terms(ctx, "enginediag", HEADER, [t2])
         ctx.add_failure("correspondence", "E3:Engine", "E3:Engine:executed-or-skipped-set",
                         "model/Engine.v and the real system disagree on which steps ran, were skipped, "
-                        f"ended SUCCEEDED or which outputs changed; model did (log, states, changes) per build: {(got[0] or '')[:1500]}",
+                        "ended SUCCEEDED, which outputs changed or which value table env_var records for a "
+                        f"(step, variable) row; model did (log, states, changes, rows) per build: {(got[0] or '')[:1500]}",
                         witness={"case": co.case_json(project, history), "model_term": term})
